@@ -788,6 +788,16 @@ impl<'tcx> Cx<'tcx> {
         if let ty::FnDef(d, args) = ty.kind() {
             o.set("fn", J::s(&self.path_args(*d, args)));
             o.set("fn_key", J::s(&self.key(*d)));
+            // resolve trait-method items (e.g. `BatchCompressState::from` passed to `map`) to their impl
+            use rustc_middle::ty::TypeVisitableExt;
+            if !args.has_non_region_param() {
+                let env = TypingEnv::fully_monomorphized();
+                let r = std::panic::catch_unwind(std::panic::AssertUnwindSafe(|| Instance::try_resolve(tcx, env, *d, args)));
+                if let Ok(Ok(Some(inst))) = r {
+                    o.set("fn_resolved_key", J::s(&self.key(inst.def_id())));
+                    o.set("fn_resolved", J::s(&self.path(inst.def_id())));
+                }
+            }
             return o;
         }
         // Evaluate when monomorphic.
@@ -797,6 +807,18 @@ impl<'tcx> Cx<'tcx> {
         };
         if needs_subst {
             o.set("generic", J::b(true));
+            // constants inside generic functions usually do not depend on the parameters (promoted `&CONST`):
+            // try to evaluate them in the body's own typing environment
+            if !{
+                use rustc_middle::ty::TypeVisitableExt;
+                ty.has_non_region_param()
+            } {
+                let env = TypingEnv::post_analysis(tcx, _body.source.def_id());
+                let r = std::panic::catch_unwind(std::panic::AssertUnwindSafe(|| c.const_.eval(tcx, env, c.span)));
+                if let Ok(Ok(cv)) = r {
+                    o.set("v", self.const_value(cv, ty));
+                }
+            }
             return o;
         }
         let env = TypingEnv::fully_monomorphized();
